@@ -11,6 +11,7 @@ from harness import fw
 from harness.common import driver_in, driver_out
 
 import txaio
+from autobahn import wamp
 from autobahn.wamp import message, types
 from autobahn.wamp.exception import ApplicationError, SerializationError, TransportLost  # noqa
 from autobahn.exception import PayloadExceededError
@@ -178,7 +179,9 @@ class Recorder:
                 if (list(msg.args or []), dict(msg.kwargs or {})) != exp["ret"]:
                     self.bad("valuesOk", "YIELD carried %r %r, endpoint returned %r" % (msg.args, msg.kwargs, exp["ret"]))
             if exp is not None and k == "error" and exp.get("err") is not None:
-                if msg.error != exp["err"][0] or list(msg.args or []) != exp["err"][1] or dict(msg.kwargs or {}) != exp["err"][2]:
+                ekw = dict(msg.kwargs or {})
+                ekw.pop("traceback", None)            # forwarded only with traceback_app
+                if msg.error != exp["err"][0] or list(msg.args or []) != exp["err"][1] or ekw != exp["err"][2]:
                     self.bad("valuesOk", "ERROR carried %r %r %r, expected %r" % (msg.error, msg.args, msg.kwargs, exp["err"]))
         self.re["out"].append(rec)
 
@@ -324,12 +327,55 @@ class MappedError(Exception):
     pass
 
 
+class FalsyService(dict):
+    """an (empty, hence falsy) object whose decorated method is the endpoint"""
+    rec = None
+
+    @wamp.register("com.myapp.proc9", options=RegisterOptions(details=True))
+    def proc9(self, *a, details=None, **kw):
+        assert isinstance(self, FalsyService)
+        return self.rec.endpoint(*a, details=details, **kw)
+
+
+class Listener:
+    """decorated object subscription: the first method has options, the second has none"""
+
+    def __init__(self, rec):
+        self.rec = rec
+
+    @wamp.subscribe("com.myapp.topic1", options=SubscribeOptions(details=True))
+    def a_first(self, *a, details=None, **kw):
+        self.rec.on_handler(2, a, kw, details, True)
+
+    @wamp.subscribe("com.myapp.topic2")
+    def b_second(self, *a, **kw):
+        self.rec.on_handler(3, a, kw, None, False)
+
+
+class capture_gather:
+    """subscribe(obj) / register(obj) return txaio.gather(...) of the per-method results: capture those"""
+
+    def __enter__(self):
+        self.futs = []
+        self.orig = txaio.gather
+
+        def g(futs, **kw):
+            self.futs.extend(futs)
+            return self.orig(futs, **kw)
+        txaio.gather = g
+        return self
+
+    def __exit__(self, *a):
+        txaio.gather = self.orig
+
+
 def scenario(rng, profile):
     R = Recorder(rng, profile)
     s = R.sess
     s.define(MappedError, "com.myapp.error.mapped")
     R.inv_rp, R.endpoint_expect, R.raising_handlers = {}, {}, set()
     R.event_expect, R.inv_expect = None, None
+    s.traceback_app = rng.random() < 0.3
     hids = {1: False, 2: True, 3: False}
     for hid, wd in hids.items():
         R.handlers[hid] = R.make_handler(hid, wd)
@@ -557,7 +603,8 @@ def scenario(rng, profile):
             if rq not in inv_ids:
                 fresh = True
             inv_ids.append(rq)
-            rx(message.Invocation(rq, reg, args=margs or None, kwargs=mkwargs or None, receive_progress=rp or None, caller=caller),
+            rx(message.Invocation(rq, reg, args=margs or None, kwargs=mkwargs or None,
+                                  receive_progress=(True if rp else rng.choice([None, False])), caller=caller),
                dict(t="invocation", req=rq, reg=reg, rp=rp), beh=beh)
         elif t == "interrupt":
             rq = rng.choice(inv_ids) if inv_ids and rng.random() < 0.8 else 999
@@ -634,8 +681,17 @@ def scenario(rng, profile):
         # a registration to invoke
         R.expect_sent = dict(uri="com.myapp.proc9")
 
+        use_obj = rng.random() < 0.35
+
         def f0():
-            fut = s.register(R.endpoint, "com.myapp.proc9", options=RegisterOptions(details=True))
+            if use_obj:
+                svc = FalsyService()
+                svc.rec = R
+                with capture_gather() as cg:
+                    s.register(svc)
+                fut = cg.futs[0]
+            else:
+                fut = s.register(R.endpoint, "com.myapp.proc9", options=RegisterOptions(details=True))
             rid = R.last_req()
             R.requests[rid] = dict(kind="register")
 
@@ -647,7 +703,36 @@ def scenario(rng, profile):
         api("register", f0)
         rid0 = R.last_req()
         rx(message.Registered(rid0, 21), dict(t="registered", req=rid0, reg=21))
-    if s._session_id is not None and profile == "c11":
+    if s._session_id is not None and profile == "c11" and rng.random() < 0.35:
+        # decorated object: two methods, topic1 (details) -> handler id 2, topic2 (no options) -> handler id 3
+        lst = Listener(R)
+        Listener.a_first.hid = 2
+        Listener.b_second.hid = 3
+        before = R.last_req()
+        try:
+            with capture_gather() as cg:
+                s.subscribe(lst)
+            futs = cg.futs
+        except Exception as e:  # noqa
+            R.re["exc"] = type(e).__name__
+            futs = []
+        rids = list(range(before + 1, R.last_req() + 1))
+        sent = [m for m in R.tr.sent[-len(rids):]] if rids else []
+        for m in sent:
+            want = "exact"
+            if (m.match or "exact") != want or m.topic not in ("com.myapp.topic1", "com.myapp.topic2"):
+                R.bad("faithful", "decorated subscribe sent match=%r topic=%r" % (m.match, m.topic))
+        # the spec sees two subscribe API calls
+        for i, rid in enumerate(rids):
+            R.requests[rid] = dict(kind="subscribe", hid=2 + i)
+            R.track(futs[i], rid)
+        if len(rids) == 2:
+            R.step(dict(ev="api", name="subscribe_obj", hs=[2, 3]))
+            rx(message.Subscribed(rids[0], 11), dict(t="subscribed", req=rids[0], sub=11))
+            rx(message.Subscribed(rids[1], 12), dict(t="subscribed", req=rids[1], sub=12))
+        else:
+            R.step(dict(ev="api", name="subscribe_obj", hs=[2, 3]))
+    elif s._session_id is not None and profile == "c11":
         for hid in rng.sample([1, 2, 3], rng.randint(1, 3)):
             R.expect_sent = dict(uri="com.myapp.topic1")
 
